@@ -97,7 +97,10 @@ type checker struct {
 	r      *mon.Run
 	split  *routingTable
 	e2e    *routingTable
+	e2eTag *routingTable
 	resplt int64
+
+	tagSampled bool
 }
 
 func typeMask(m map[string]*ref.Series) int {
@@ -521,6 +524,315 @@ func (c *checker) checkE2E(cs e2eCase) {
 }
 
 // ---------------------------------------------------------------------------------------------
+// end to end as the server wires it: TagHandler -> BackendHandler, series spelled in several ways
+
+// e2eTagCase: rounds (one round = everything between two drains of all aggregators, a "flush") of
+// batches whose datapoints name the same series (name, tag SET, source) under different spellings:
+// duplicate tags, another tag order, nil versus empty tag list.
+type e2eTagCase struct {
+	Kind        string              `json:"kind"` // "e2e-tag"
+	Rounds      [][][]ref.Datapoint `json:"rounds"`
+	Static      []string            `json:"static"`
+	Workers     int                 `json:"workers"`
+	Buffer      int                 `json:"buffer"` // 0 when there is more than one round (drain barrier)
+	Dispatchers int                 `json:"dispatchers"`
+}
+
+// mapOfSpelled is gen.MapOf, except that an empty non-nil tag list reaches Receive as such.
+func mapOfSpelled(dps []ref.Datapoint) *gostatsd.MetricMap {
+	mm := gostatsd.NewMetricMap(false)
+	for _, d := range dps {
+		m := d.Metric()
+		if d.Tags != nil && len(d.Tags) == 0 {
+			m.Tags = gostatsd.Tags{}
+		}
+		mm.Receive(m)
+	}
+	return mm
+}
+
+func tagSet(tags []string, extra []string) []string {
+	seen := map[string]bool{}
+	var out []string
+	for _, t := range append(append([]string{}, tags...), extra...) {
+		if !seen[t] {
+			seen[t] = true
+			out = append(out, t)
+		}
+	}
+	sort.Strings(out)
+	return out
+}
+
+// endRound is run on the worker's goroutine through BackendHandler.Process: what was received since
+// the previous call is one flush worth of data of this aggregator.
+func (a *captureAggr) endRound() []map[string]*ref.Series {
+	a.mu.Lock()
+	defer a.mu.Unlock()
+	out := a.received
+	a.received, a.fwd = nil, nil
+	return out
+}
+
+func (c *checker) checkE2ETag(cs e2eTagCase) {
+	r := c.r
+	var (
+		amu   sync.Mutex
+		aggrs []*captureAggr
+	)
+	factory := statsd.AggregatorFactoryFunc(func() statsd.Aggregator {
+		amu.Lock()
+		defer amu.Unlock()
+		a := &captureAggr{id: len(aggrs)}
+		aggrs = append(aggrs, a)
+		return a
+	})
+	bh := statsd.NewBackendHandler(nil, 4, cs.Workers, cs.Buffer, factory)
+	var static gostatsd.Tags
+	if len(cs.Static) > 0 {
+		static = append(gostatsd.Tags{}, cs.Static...)
+	}
+	th := statsd.NewTagHandler(bh, static, nil)
+	ctx, cancel := context.WithCancel(context.Background())
+	defer cancel()
+	runDone := make(chan struct{})
+	go func() {
+		defer close(runDone)
+		bh.Run(ctx)
+	}()
+	if len(aggrs) != cs.Workers {
+		r.Violation("e2e-wrong-number-of-aggregators", fmt.Sprintf("%d workers configured, factory called %d times", cs.Workers, len(aggrs)), cs)
+		return
+	}
+
+	for ri, round := range cs.Rounds {
+		maps := make([]*gostatsd.MetricMap, len(round))
+		want := ref.NewFolded()
+		spellings := map[string]map[string]bool{} // identity -> raw keys it was sent under
+		for i, dps := range round {
+			maps[i] = mapOfSpelled(dps)
+			for _, d := range dps {
+				canon := d
+				canon.Tags = tagSet(d.Tags, cs.Static)
+				want.AddDatapoint(canon)
+				id := ref.Key(d.Type, d.Name, ref.TagsKey(canon.Tags, d.Source))
+				if spellings[id] == nil {
+					spellings[id] = map[string]bool{}
+				}
+				spellings[id][ref.TagsKey(d.Tags, d.Source)] = true
+			}
+		}
+		var wg sync.WaitGroup
+		for d := 0; d < cs.Dispatchers; d++ {
+			wg.Add(1)
+			go func(d int) {
+				defer wg.Done()
+				r.Guard("e2e-tag-dispatch-panic", cs, func() {
+					for i := d; i < len(maps); i += cs.Dispatchers {
+						th.DispatchMetricMap(context.Background(), maps[i])
+					}
+				})
+			}(d)
+		}
+		dispatched := make(chan struct{})
+		go func() { wg.Wait(); close(dispatched) }()
+		select {
+		case <-dispatched:
+		case <-time.After(60 * time.Second):
+			r.Inconclusive("e2e-tag-dispatch-watchdog")
+			return
+		}
+		// Drain of all aggregators. With unbuffered queues every dispatched map has been taken by its
+		// worker when DispatchMetricMap returns, so a Process command is handled after it. With buffered
+		// queues (single round) the queues are drained by stopping the handler.
+		perAggr := make([][]map[string]*ref.Series, cs.Workers)
+		if cs.Buffer > 0 || ri == len(cs.Rounds)-1 {
+			cancel()
+			select {
+			case <-runDone:
+			case <-time.After(60 * time.Second):
+				r.Inconclusive("e2e-tag-run-watchdog")
+				return
+			}
+			for _, a := range aggrs {
+				perAggr[a.id] = a.endRound()
+			}
+		} else {
+			var pmu sync.Mutex
+			wait := bh.Process(ctx, func(id int, a statsd.Aggregator) {
+				got := a.(*captureAggr).endRound()
+				pmu.Lock()
+				perAggr[id] = got
+				pmu.Unlock()
+			})
+			done := make(chan struct{})
+			go func() { wait(); close(done) }()
+			select {
+			case <-done:
+			case <-time.After(60 * time.Second):
+				r.Inconclusive("e2e-tag-process-watchdog")
+				return
+			}
+		}
+		r.Eval(1)
+
+		// the oracle, keyed by the identity of the series: (type, name, tag set, source)
+		type place struct {
+			aggr int
+			key  string
+		}
+		where := map[string]map[place]bool{}
+		got := ref.NewFolded()
+		for ai, flats := range perAggr {
+			for _, flat := range flats {
+				keys := make([]string, 0, len(flat))
+				for k := range flat {
+					keys = append(keys, k)
+				}
+				sort.Strings(keys)
+				for _, k := range keys {
+					s := flat[k]
+					set := tagSet(s.Tags, nil)
+					id := ref.Key(s.Type, s.Name, ref.TagsKey(set, s.Source))
+					if where[id] == nil {
+						where[id] = map[place]bool{}
+					}
+					where[id][place{ai, s.TagsKey}] = true
+					s2 := *s
+					s2.Tags, s2.TagsKey = set, ref.TagsKey(set, s.Source)
+					got.AddSeries(&s2)
+					if prev, bad, _ := c.e2eTag.observe(cs.Workers, fmt.Sprintf("%d|%s", s.Type, s.Name), s2.TagsKey, ai); bad {
+						r.Violation("e2e-tag-aggregator-not-a-function-of-series", fmt.Sprintf("series %q with %d aggregators: aggregator %d earlier in this process, %d now (received under key %q)", id, cs.Workers, prev, ai, s.TagsKey), cs)
+					}
+				}
+			}
+		}
+		respelled := 0
+		for id, keys := range spellings {
+			if len(keys) > 1 {
+				respelled++
+			}
+			_ = id
+		}
+		ids := make([]string, 0, len(where))
+		for id := range where {
+			ids = append(ids, id)
+		}
+		sort.Strings(ids)
+		for _, id := range ids {
+			places := where[id]
+			as := map[int]bool{}
+			var desc []string
+			for p := range places {
+				as[p.aggr] = true
+				desc = append(desc, fmt.Sprintf("aggregator %d key %q", p.aggr, p.key))
+			}
+			sort.Strings(desc)
+			if len(as) > 1 {
+				r.Violation("e2e-tag-series-reached-two-aggregators", fmt.Sprintf("round %d: the series %q (type|name|tag set,source) is held by %s; sent under the spellings %v", ri, id, strings.Join(desc, " and "), keysOf(spellings[id])), cs)
+			} else if len(places) > 1 {
+				r.Violation("e2e-tag-series-twice-in-one-flush", fmt.Sprintf("round %d: the series %q is held under several keys of one aggregator: %s; sent under the spellings %v", ri, id, strings.Join(desc, " and "), keysOf(spellings[id])), cs)
+			}
+		}
+		d := ref.Diff(got.Series, want.Series, ref.DiffOpts{IgnoreGauge: true})
+		d = append(d, want.CheckGauges(got.Series)...)
+		if len(d) > 0 {
+			kind := firstWords(d[0], 1)
+			if strings.HasPrefix(d[0], "missing") || strings.HasPrefix(d[0], "unexpected") || strings.HasPrefix(d[0], "duplicate") {
+				kind = "membership"
+			}
+			r.Violation("e2e-tag-received-differs-from-dispatched:"+kind, fmt.Sprintf("round %d, %d workers, static %q: %s", ri, cs.Workers, cs.Static, strings.Join(d, " | ")), cs)
+		}
+		r.Event("e2e_tag_series", len(where))
+		r.Event("e2e_tag_respelled_series", respelled)
+		if respelled > 0 && sameNameDifferentTags(want.Series) {
+			sp := respelled
+			if sp > 3 {
+				sp = 3
+			}
+			r.Nontrivial(fmt.Sprintf("e2e-tag:t%04b:w%d:static=%v:respelled%d:round%d", typeMask(want.Series), cs.Workers, len(cs.Static) > 0, sp, ri))
+			if r.WantSample() && cs.Workers > 1 && len(where) <= 6 && !c.tagSampled {
+				c.tagSampled = true
+				o := map[string][]string{}
+				for id := range where {
+					o[id] = keysOf(spellings[id])
+				}
+				r.Sample(map[string]interface{}{"kind": "e2e-tag", "workers": cs.Workers, "static": cs.Static, "series_to_spellings": o})
+			}
+		}
+	}
+}
+
+func keysOf(m map[string]bool) []string {
+	out := make([]string, 0, len(m))
+	for k := range m {
+		out = append(out, k)
+	}
+	sort.Strings(out)
+	return out
+}
+
+var spellTags = []string{"env:prod", "env:dev", "region:us", "bare", "a:1", "a:2"}
+
+func genE2ETag(rng *rand.Rand) e2eTagCase {
+	cs := e2eTagCase{Kind: "e2e-tag", Workers: 2 + rng.Intn(15), Buffer: rng.Intn(5), Dispatchers: 1 + rng.Intn(3), Static: []string{}}
+	if rng.Intn(8) == 0 {
+		cs.Workers = 1 + rng.Intn(maxCount)
+	}
+	switch rng.Intn(4) {
+	case 0:
+		cs.Static = []string{"dc:x"}
+	case 1:
+		cs.Static = []string{spellTags[rng.Intn(len(spellTags))]} // equal to a possible metric tag
+	}
+	nRounds := 1 + rng.Intn(3)
+	if nRounds > 1 {
+		cs.Buffer = 0
+	}
+	// a few identities per case, met again and again under other spellings
+	type ident struct {
+		name   string
+		tags   []string
+		source string
+	}
+	ids := make([]ident, 2+rng.Intn(5))
+	for i := range ids {
+		ids[i] = ident{name: fmt.Sprintf("m%d", rng.Intn(3)), source: []string{"", "10.0.0.1", "10.0.0.2"}[rng.Intn(3)]}
+		for j, n := 0, rng.Intn(4); j < n; j++ {
+			ids[i].tags = append(ids[i].tags, spellTags[rng.Intn(len(spellTags))])
+		}
+		ids[i].tags = tagSet(ids[i].tags, nil)
+	}
+	for ri := 0; ri < nRounds; ri++ {
+		var round [][]ref.Datapoint
+		for b, nb := 0, 1+rng.Intn(5); b < nb; b++ {
+			dps := gen.Datapoints(rng, gen.MapOpts{Exact: true, TimeBase: 1000, TimeSpread: 4}, 1+rng.Intn(8))
+			for i := range dps {
+				d := &dps[i]
+				id := ids[rng.Intn(len(ids))]
+				d.Name, d.Source = id.name, id.source
+				tags := append([]string{}, id.tags...)
+				for len(tags) > 0 && rng.Intn(3) == 0 { // duplicate one of the tags
+					tags = append(tags, tags[rng.Intn(len(tags))])
+				}
+				rng.Shuffle(len(tags), func(a, b int) { tags[a], tags[b] = tags[b], tags[a] })
+				switch {
+				case len(tags) > 0:
+					d.Tags = tags
+				case rng.Intn(2) == 0:
+					d.Tags = []string{} // empty, not nil
+				default:
+					d.Tags = nil
+				}
+			}
+			round = append(round, dps)
+		}
+		cs.Rounds = append(cs.Rounds, round)
+	}
+	return cs
+}
+
+// ---------------------------------------------------------------------------------------------
 
 func TestCheck(t *testing.T) {
 	if p := os.Getenv(childEnv); p != "" {
@@ -529,9 +841,9 @@ func TestCheck(t *testing.T) {
 	}
 	r := mon.Start(t, "C06")
 	defer r.Finish()
-	r.Rule("cases: (split) a random batch (1..40 datapoints of all four types, empty names/tags/sources included, one third of the identities re-used from earlier batches with new values, types and tag order) is turned into a MetricMap and Split with 8 (quick) or all 64 (thorough) shard counts from 1..64; every split is checked for exactly-one-shard membership, union == batch (values, tags, source, timestamp, Forwarded) and against a process-wide routing table (count, name, tagsKey) -> shard; (xproc) a fixed list of 300 identities is routed for all 64 counts here and in a second process and compared; (e2e) batches dispatched through a real BackendHandler (1..16 workers, queue 0..4, 1..3 dispatchers) with capturing aggregators: key -> aggregator is a function, nothing lost or duplicated. Non-trivial: the batch holds at least two series with the same name and different tag keys; distinct by (kind, set of metric types present, shard count).")
+	r.Rule("cases: (split) a random batch (1..40 datapoints of all four types, empty names/tags/sources included, one third of the identities re-used from earlier batches with new values, types and tag order) is turned into a MetricMap and Split with 8 (quick) or all 64 (thorough) shard counts from 1..64; every split is checked for exactly-one-shard membership, union == batch (values, tags, source, timestamp, Forwarded) and against a process-wide routing table (count, name, tagsKey) -> shard; (xproc) a fixed list of 300 identities is routed for all 64 counts here and in a second process and compared; (e2e) batches dispatched through a real BackendHandler (1..16 workers, queue 0..4, 1..3 dispatchers) with capturing aggregators: key -> aggregator is a function, nothing lost or duplicated; (e2e-tag) the server's wiring TagHandler (no filters, no or one static tag) -> BackendHandler (1..64 workers) receives 1..3 rounds of 1..5 batches built with MetricMap.Receive in which 2..6 series are spelled in different ways (duplicate tags, other tag order, nil versus empty tag list), by 1..3 concurrent dispatchers; after every round all aggregators are drained (Process barrier on unbuffered queues, or stopping the handler) and, keyed by the series identity (type, name, sorted de-duplicated tag set, source), every series must be held by exactly one aggregator under exactly one key, by the same aggregator in every round and handler instance, with values equal to the reference fold of the round. Non-trivial: the batch holds at least two series with the same name and different tag keys; distinct by (kind, set of metric types present, shard count; for e2e-tag also static tag, number of re-spelled series, round).")
 	r.Assume("ref.FromMap (harness) flattens a MetricMap faithfully; MetricMap.Receive is used to build the input batches")
-	c := &checker{r: r, split: newRoutingTable(400000), e2e: newRoutingTable(200000)}
+	c := &checker{r: r, split: newRoutingTable(400000), e2e: newRoutingTable(200000), e2eTag: newRoutingTable(200000)}
 
 	if p := r.ReplayPayload(); p != nil {
 		replay(t, c, p)
@@ -569,6 +881,13 @@ func TestCheck(t *testing.T) {
 		c.checkE2E(cs)
 	}
 
+	nTag := r.N(640, 60000)
+	for i := 0; i < nTag; i++ {
+		cs := genE2ETag(rng)
+		r.Case("e2e-tag workers=%d buffer=%d dispatchers=%d rounds=%d static=%q", cs.Workers, cs.Buffer, cs.Dispatchers, len(cs.Rounds), cs.Static)
+		c.checkE2ETag(cs)
+	}
+
 	if s, _ := r.Shard(); s == 0 {
 		c.crossProcess(t)
 	}
@@ -593,6 +912,12 @@ func replay(t *testing.T, c *checker, p []byte) {
 		mon.ReplayCase(p, &cs)
 		c.checkE2E(cs)
 		c.checkE2E(cs)
+	case "e2e-tag":
+		var cs e2eTagCase
+		mon.ReplayCase(p, &cs)
+		for i := 0; i < 20; i++ {
+			c.checkE2ETag(cs)
+		}
 	case "xproc":
 		c.crossProcess(t)
 	default:
